@@ -164,10 +164,5 @@ class ExceptIfEval(RefinementCacheMixin, ConclusionMixin, EvalContract):
         l, r = Z.f_left(n), Z.f_right(n)
         return z3.If(Z.Den(r, rho), Sel(r, rho), Sel(l, rho))
 
-    def loop_invariant(self, eng, st, ordinal, iterated):
-        if 'right_yielded' in st.locals and ordinal == 2:
-            return eng.to_z3_bool(eng.truth(st, st.locals['right_yielded'])) == iterated
-        return None
-
 
 CONTRACTS = [ExceptIfEval]
